@@ -3,6 +3,7 @@
 # (c) 2017-2020 Michał Górny
 # Licensed under the terms of 2-clause BSD license
 
+import io
 import os.path
 
 from gemato.compression import (
@@ -366,13 +367,26 @@ class ManifestRecursiveLoader:
         else:
             sign = False
 
+        signed_data = None
+        if sign or (sign is None and m.openpgp_signed):
+            # sign before touching the file: if signing fails,
+            # the Manifest on disk must stay what it was
+            with io.StringIO() as data:
+                m.dump(data,
+                       sign_openpgp=sign,
+                       sort=sort,
+                       openpgp_env=self.openpgp_env,
+                       openpgp_keyid=self.openpgp_keyid)
+                signed_data = data.getvalue()
+
         with open_potentially_compressed_path(path, 'w',
                                               encoding='utf8') as f:
-            m.dump(f,
-                   sign_openpgp=sign,
-                   sort=sort,
-                   openpgp_env=self.openpgp_env,
-                   openpgp_keyid=self.openpgp_keyid)
+            if signed_data is not None:
+                f.write(signed_data)
+            else:
+                m.dump(f,
+                       sign_openpgp=False,
+                       sort=sort)
             f.flush()
             return f.buffer.tell()
 
